@@ -350,9 +350,8 @@ func (m *Machine) activateModel() {
 // checkAlt checks stack ∧ t and returns a model of it when sat.
 func (m *Machine) checkAlt(t *Term) (Result, map[string]uint64) {
 	s := m.solver
-	s.define(t)
 	s.Push()
-	s.send(fmt.Sprintf("(assert %s)", t.ref()))
+	s.Assert(t)
 	r := s.Check()
 	var md map[string]uint64
 	if r == Sat {
